@@ -18,8 +18,8 @@ namespace Nstd.Buffer
 /-- **No out-of-range access.**  Every history of well-formed operations (variable indices
     exist, every attached range lies inside its region) runs without a fault, whatever the
     sizes, head-room, capacities and ownership states it goes through – including histories
-    that mix `attach` with owning operations, that hand the same region to several buffers
-    and that pass a buffer to itself. -/
+    that mix `attach` with owning operations, that hand the same region to several buffers,
+    that pass a buffer to itself and that prepend a sub-range of the buffer's own bytes. -/
 theorem no_fault (nvars : Nat) (regs : List (List Byte)) (ops : List Op)
     (hwf : ∀ op ∈ ops, WFOp nvars regs op) :
     ∃ st, run (init nvars regs) ops = some st := by
@@ -111,19 +111,19 @@ theorem buffer_correct (nvars : Nat) (regs : List (List Byte)) (ops : List Op)
 def exRegs : List (List Byte) := [[some 0x10, some 0x11, some 0x12, some 0x13], [some 0x20, some 0x21]]
 
 /-- a history that goes through attach, the reallocating / shifting / head-room branches of prepend,
-    compaction in resize, self-append, swap, and ends with two non-empty buffers -/
+    compaction in resize, self-append, prepend of a sub-range of the buffer itself, swap, and ends with two non-empty buffers -/
 def exOps : List Op :=
   [.attach 0 0 1 3, .appendData 0 [1, 2], .removeFront 0 2, .prependData 0 [7], .prependData 0 [8, 9],
    .resize 0 7, .appendBuf 0 0, .ctorCap 1 4, .appendBuf 1 0, .removeBack 1 10, .swap 0 1,
-   .prependBuf 1 1, .assignBuf 0 0, .reserve 0 20, .attach 1 1 0 2, .removeBack 1 1]
+   .prependBuf 1 1, .assignBuf 0 0, .prependSub 0 1 2, .reserve 0 20, .attach 1 1 0 2, .removeBack 1 1]
 
 example : ∀ op ∈ exOps, WFOp 2 exRegs op := by
   simp [exOps, WFOp, exRegs]
 
 /-- the hypotheses of `terminator_zero`/`refines`/`attached_untouched` are met by a run ending in an
-    owning buffer with four bytes and an attached buffer with one byte -/
+    owning buffer with six bytes and an attached buffer with one byte -/
 example : ∃ st b, run (init 2 exRegs) exOps = some st ∧ st.getBuf 0 = some b ∧ b.owning = true ∧
-    contents st 0 = some [some 8, some 9, some 7, some 0x13] ∧
+    contents st 0 = some [some 9, some 7, some 8, some 9, some 7, some 0x13] ∧
     contents st 1 = some [some 0x20] := by
   refine ⟨_, _, rfl, rfl, rfl, rfl, rfl⟩
 
